@@ -194,6 +194,16 @@ def run_unit(unit, rng, ctx):
                 sym = np.asarray(op.operate(s.frac_coords))
                 k = int(rng.integers(5, 40))
                 pos.append(np.mod(sym[None, :] + (gen.random_unit_vectors(rng, k) * rng.uniform(0, 1.3 * radius, size=(k, 1))) @ inv, 1))
+        # positions that coincide bit for bit with a site centre / a symmetry image of it (distance exactly 0:
+        # an ideal-crystal first frame)
+        exact = [np.asarray(s.frac_coords, dtype=float)[None, :] for s in an_sites]
+        for s in an_sites:
+            for op in [ops[int(i)] for i in rng.choice(len(ops), size=min(len(ops), 3), replace=False)]:
+                sym = np.asarray(op.operate(s.frac_coords), dtype=float)
+                if np.all((sym >= 0) & (sym < 1)):
+                    exact.append(sym[None, :])
+        pos.extend(exact)
+        ctx.count('positions_exactly_on_a_site_image', len(exact))
         positions = np.vstack(pos)
         positions[positions == 1] = 0
         what = f'{sg.symbol} (#{n}) {"spglib ops" if use_spglib else "SpaceGroup"} ops={len(ops)} radius={radius:.3f}'
